@@ -260,6 +260,9 @@ def run(ctx: Ctx):
     pmap(ctx, _long_session, [(k, 3000 if ctx.quick else 40000) for k in aio.CLIENT_KINDS])
     n = 60 if ctx.quick else 4000
     pmap(ctx, _work, [(k, n) for k in aio.CLIENT_KINDS for _ in range(4)])
+    # once more in an interpreter that does not execute assert statements (python -O)
+    from ..common import sub_pass
+    sub_pass(ctx, ["-O"], "python-O")
 
 
 def replay(ctx: Ctx, case):
